@@ -1,7 +1,6 @@
 package world
 
 import (
-	"strings"
 	standardprocess "github.com/attestantio/dirk/services/process/standard"
 	"github.com/herumi/bls-eth-go-binary/bls"
 	"github.com/attestantio/dirk/util"
@@ -380,17 +379,8 @@ func InstallHook(b *Base, decode func(key, val []byte) Ev) {
 			// One write system call per passage: shows up in the strace output between the database's own calls.
 			_, _ = syscall.Write(markFd, []byte(fmt.Sprintf("VERIFMARK %s %s %s\n", site, rid, k)))
 		}
-		actor := rid
-		if rid != "" && strings.HasPrefix(site, "store.") && b.g.get() != rid {
-			// the storage step runs on a goroutine that is not the one in which the ruler was entered for this request: work that
-			// outlives - or runs beside - its request (the shipped code has none).  The scheduler treats it as an actor of its own.
-			actor = rid + "~"
-		}
-		kind := b.Ctl.Point(actor, site, k)
+		kind := b.Ctl.Point(rid, site, k)
 		ev := Ev{"r": rid, "k": k, "site": site}
-		if actor != rid {
-			ev["beside"] = true
-		}
 		switch site {
 		case "store.fetch.exit":
 			ev["ev"] = "Fetch"
